@@ -307,9 +307,9 @@ func init() {
 		ID:   "C07",
 		Also: []string{"C02"}, // in these batches a fidelity failure (exactly-once dispatch, equal arguments / results) is this property's failure
 		Batches: []Batch{
-			s4b("rpc", "res=fam.annotated+fam.annotatedre+fam.coonly+fam.roonly,methods=excl", 15000, 1000000),
-			s4b("rpc", "res=fam.annotated+fam.annotatedre+fam.coonly+fam.roonly,methods=excl,byzclient=1", 15000, 1000000),
-			s4b("rpc", "res=fam.annotated+fam.annotatedre+fam.coonly+fam.roonly+fam.prims,mounts=bare+mux+prefix,byzclient=1", 6000, 400000),
+			s4b("rpc", "res=fam.annotated+fam.annotatedre+fam.coonly+fam.roonly+fam.pfx,methods=excl", 15000, 1000000),
+			s4b("rpc", "res=fam.annotated+fam.annotatedre+fam.coonly+fam.roonly+fam.pfx,methods=excl,byzclient=1", 15000, 1000000),
+			s4b("rpc", "res=fam.annotated+fam.annotatedre+fam.coonly+fam.roonly+fam.pfx+fam.prims,mounts=bare+mux+prefix,byzclient=1", 6000, 400000),
 		},
 		Rule:   "calls to the annotated resource (readOnly: id, inner/b, items/*/b; createOnly: created, attrs/*/a) through create, batch_create, update, batch_update, partial_update, batch_partial_update with entities and patches drawn by reflection; the wire tap is parsed with encoding/json and must carry no value at an excluded path; the resource must see the entity minus exactly the excluded paths; a patch touching an excluded leaf must fail on the client with nothing sent; in the Byzantine-client batches half of the requests are rewritten to carry a value at an excluded path ($set, $delete, nested patch, array and map wildcards) and must be answered 400 without the resource running. Distinct by (resource, method, mounting).",
 		Assume: append([]string{"only the family's six exclusion paths are exercised (they cross the leading-scope offsets 0, 1, 2 and 3 through the batch and patch variants); exactness for arbitrary specs up to depth 4 is a pure codec property and is not claimed"}, s4Assume...),
